@@ -96,7 +96,24 @@ claim("C19",
       "float64 treated as mathematical reals (IEEE rounding/NaN not modelled); the forwarding gate (SenderForBundle) and concurrent map access are not decided yet.",
       "DESIGN.md §6 C19")
 
-for pid in ["C04","C05","C07","C09","C10","C20"]:
+claim("C04",
+      "Zero-annotation safety obligations at every instruction that can panic (index, slice bounds, nil dereference / nil interface call, type assertion, make with a negative or huge length, division, "
+      "nil-map store, channel close/send) plus an allocation-cap obligation (1 MiB) at every make/append growth of non-constant size, generated for the decoders under contract and discharged for all input "
+      "streams: BPv7 primary/canonical/hop-count/age/timestamp/ipn/dtn/previous-node/signature/spray/PRoPHET/DTLSR/status-report/bundle-id decoders, Bundle.UnmarshalCbor, the seven TCPCLv4 message decoders, contact header and ReadMessage, "
+      "TCPCL segmenter/reassembler, BBC ParseFragment/ReadFragment, discovery announcements and the five WebSocket-agent message decoders.",
+      "Inputs are symbolic token streams (CBOR heads in shortest form; other encodings outside the model). Not covered: reflection-based dispatch (NewMessage, ReadAdministrativeRecord, agent unmarshalCbor - registry contents assumed), "
+      "ExtensionBlockManager.ReadBlock and EndpointID.UnmarshalCbor (assumed models), MTCP handleSender (net/bufio), xz, json, websocket, regexp internals; termination is proved only where a loop carries a variant, "
+      "hangs are otherwise not decided; cboring.ReadMajors/ReadRawBytes are a trusted model (ReadRawBytes caps allocation itself).",
+      "DESIGN.md §6 C04")
+
+claim("C07",
+      "Endpoint matching: bagContainsEndpoint returns false only if no endpoint is common to both collections (so an agent registered for the destination is never skipped; the converse direction in the thorough tier), a bundle message is "
+      "addressed to exactly its destination; REST agent: the iteration callbacks of receiveBundleMessage and Endpoints never stop the iteration and select a client exactly when its endpoint equals the destination.",
+      "Partial: MuxAgent.handle fan-out (channel range), the mailbox update loop, AgentManager.Deliver and Core.localDelivery/dispatching call sites are not yet under contract; sync.Map is a sequential ghost-map model, Range = callback "
+      "effects on captured variables; concurrent register/unregister/fetch (non-atomic mailbox updates) is outside this family.",
+      "DESIGN.md §6 C07")
+
+for pid in ["C05","C09","C10","C20"]:
     na(pid, UNBUILT)
 na("C08", "Durability across restarts/crash points and concurrent pushes are history properties of badgerhold/gob/the file system; "
           "the in-repo code is a thin reflection-driven wrapper; no function contract within reach can express or decide them (DESIGN.md §7).")
